@@ -29,6 +29,13 @@ fn = M.fn
 NONE = M.NONE
 
 
+# values the value-agnostic operators must treat as opaque items: falsy ones in particular
+# (0, '', False, None, empty list / tuple), strings, a non-integral number
+OPAQUE = [I(0), I(1), NONE, ['s', ''], ['s', 'a'], ['b', False], ['l', []], ['t', []], ['q', 1, 2]]
+# values with pairwise different python equality (no bool next to 0/1): usable as keys
+KEYLIKE = [I(0), I(1), I(-1), NONE, ['s', ''], ['s', 'a'], ['t', []], ['t', [I(0)]]]
+
+
 def mux_case(pipe, src, **kw):
     d = {'pipe': pipe, 'mode': 'mux', 'src': src}
     d.update(kw)
@@ -106,6 +113,12 @@ def cases_c05(rng, thorough):
             # as a user sees it: plain source, to_list per window
             cases.append(src_case([G.op_roll(w, s, [G.op_simple('to_list')])],
                                   G.ints(range(rng.choice([0, 3, 7, 12])))))
+    for _ in range(60 if thorough else 15):       # the windows do not look at the items
+        w, s_ = rng.randint(1, 4), rng.randint(1, 4)
+        xs = [rng.choice(OPAQUE) for _ in range(rng.randint(0, 9))]
+        cases.append(mux_case([G.op_roll(w, s_, [rng.choice([[], [G.op_simple('to_list')],
+                                                              [G.op_simple('last')]])][0])],
+                              G.key_stream(rng.choice([0, 3]), xs)))
     # nested: roll in roll / split / group_by, roll under group_by with interleaved groups
     nest = 60 if thorough else 20
     for _ in range(nest):
@@ -161,6 +174,10 @@ def cases_c04(rng, thorough):
             pipe = [G.op_split('divc', 2, [g])]
         lts = rand_lifetimes(rng, rng.choice([1, 2, 3]), 8, vals=range(7))
         cases.append(mux_case(pipe, G.schedule(rng, lts)))
+    for _ in range(80 if thorough else 20):     # keys of several types, falsy keys
+        xs = [rng.choice(KEYLIKE) for _ in range(rng.randint(0, 8))]
+        cases.append(mux_case([G.op_group_by('id', 0, rng.choice([[], [G.op_simple('to_list')]]))],
+                              G.key_stream(rng.choice([0, 3]), xs)))
     for _ in range(30 if thorough else 8):      # many distinct keys
         xs = [rng.randint(0, 60) for _ in range(rng.randint(20, 80))]
         cases.append(src_case([G.op_group_by('id', 0, [G.op_simple('to_list')],
@@ -211,6 +228,10 @@ def cases_c06(rng, thorough):
             pipe = [G.op_split('divc', 3, [sp])]
         lts = rand_lifetimes(rng, rng.choice([1, 2, 3]), 9, vals=range(6))
         cases.append(mux_case(pipe, G.schedule(rng, lts)))
+    for _ in range(80 if thorough else 20):     # predicate values of several types, falsy ones
+        xs = [rng.choice(KEYLIKE) for _ in range(rng.randint(0, 8))]
+        cases.append(mux_case([G.op_split('id', 0, rng.choice([[], [G.op_simple('to_list')]]))],
+                              G.key_stream(rng.choice([0, 3]), xs)))
     for _ in range(10 if thorough else 4):
         xs = [rng.randint(0, 5) for _ in range(rng.randint(0, 40))]
         cases.append(src_case([G.op_split('divc', 2, [G.op_simple('to_list')], 'str')], G.ints(xs)))
@@ -297,6 +318,8 @@ BRANCHES = {
     'roll': lambda: [G.op_roll(2, 1, [G.op_agg('sum', True)])],
     'take1': lambda: [G.op_simple('take', n=1)],
     'ident': lambda: [],
+    'opt': lambda: [G.op_map('noneIf', 1)],           # emits None as an item
+    'opt2': lambda: [G.op_map('noneIf', 2), G.op_simple('last')],
 }
 
 
@@ -330,6 +353,16 @@ def cases_c08(rng, thorough):
             pipe = [G.op_split('divc', 2, [t])]
         lts = rand_lifetimes(rng, rng.choice([1, 2, 3]), 7, vals=range(5), reuse=0.5)
         cases.append(mux_case(pipe, G.schedule(rng, lts)))
+    # the same operator object in several branches (operators are factories)
+    for _ in range(60 if thorough else 16):
+        shared = rng.choice([[{'op': 'count', 'reduce': True}], [G.op_agg('max', False)], [_scan_add()],
+                             [G.op_simple('to_list')], [G.op_simple('take', n=1)]])
+        pre = [[G.op_filter('even')], [G.op_filter('gec', 1)], [G.op_filter('ltc', 2)], []]
+        rng.shuffle(pre)
+        nb = rng.choice([2, 3])
+        t = G.op_tee(rng.choice(joins), [pre[b] + shared for b in range(nb)])
+        lts = rand_lifetimes(rng, rng.choice([1, 2]), 6, vals=range(-1, 4), reuse=0.4)
+        cases.append(mux_case([t], G.schedule(rng, lts), share_ops=True))
     return cases
 
 
@@ -395,6 +428,12 @@ def cases_c09(rng, thorough):
         streams = [G.key_stream(0, G.ints([1, 2][:max(minlen, 2)])), G.key_stream(3, G.ints([2]))]
         for src in G.all_interleavings(streams, cap=None if thorough else 12, rng=rng):
             cases.append(mux_case([op], src))
+        if op['op'] in ('to_list', 'batch', 'progress') or \
+                (op['op'] == 'scan' and op['f']['n'] in ('appendMut', 'appendNew', 'last')) or \
+                (op['op'] == 'count'):
+            for _ in range(12 if thorough else 3):     # value-agnostic folds on falsy / mixed items
+                lts = [(idx, [rng.choice(OPAQUE) for _ in range(rng.randint(0, 5))]) for idx in (0, 2)]
+                cases.append(mux_case([op], G.schedule(rng, lts)))
         # a lifetime ended by an error event of the source, then the same key again
         for _ in range(6 if thorough else 2):
             a = G.ints([rng.randint(-2, 3) for _ in range(rng.randint(max(1, minlen), 4))])
@@ -457,6 +496,12 @@ def cases_c10(rng, thorough):
         if not thorough and len(sp) > 45:
             sp = [s for s in space if len(s) <= 2] + rng.sample([s for s in space if len(s) > 2], 24)
         for xs in sp:
+            cases.append(mux_case([op], G.key_stream(rng.choice([0, 2]), xs)))
+        # falsy / non-integer items: the operators are value-agnostic (distinct and
+        # distinct_until_changed compare with ==: key-like values only)
+        pool = KEYLIKE if op['op'] in ('distinct', 'duc') else OPAQUE
+        for _ in range(40 if thorough else 10):
+            xs = [rng.choice(pool) for _ in range(rng.randint(0, 6))]
             cases.append(mux_case([op], G.key_stream(rng.choice([0, 2]), xs)))
         for _ in range(20 if thorough else 5):        # two keys interleaved, long sequences
             lts = [(idx, [rng.choice(vals) for _ in range(rng.randint(0, 12))])
@@ -1231,6 +1276,11 @@ def main(prop):
             apa = apalache_roll(V, thorough)
             V.phase('Apalache: inductive invariant of the roll ring')
         cases = replay_cases + P['cases'](rng, thorough)
+        for c in cases[len(replay_cases):]:
+            # a quarter of the cases build one python operator object per distinct descriptor
+            # and use it at every position where that descriptor occurs
+            if c.get('mode') == 'mux' and 'multi' not in c and 'share_ops' not in c and rng.random() < 0.25:
+                c['share_ops'] = True
         stats = {}
         traces = MC.judge(V, cases, P['relevant'], stats, family=prop)
         out_of_sync = compare_with_model(traces[:len(replay_cases)], model_logs)
